@@ -151,10 +151,11 @@ Record sst := SSt {
   s_gone : list sreg;                (* registrations of removed handles *)
   s_handles : list (list sreg);      (* by handle *)
   s_unspec : list cid;
-  s_multi_removed : list cid         (* clients that removed a subscription with >= 2 paths *)
+  s_multi_removed : list cid;        (* clients that removed a subscription with >= 2 paths *)
+  s_subclients : list cid            (* clients that called addSubscription *)
 }.
 
-Definition sst0 : sst := SSt [] [] [] [] [].
+Definition sst0 : sst := SSt [] [] [] [] [] [].
 
 Definition has_path (e : option gpath) : bool := match e with Some _ => true | None => false end.
 
@@ -176,11 +177,14 @@ Definition sstep (s : sst) (o : op) : sst :=
   match o with
   | OAdd c q =>
       let r := [SReg q c false false] in
-      SSt (s_reg s ++ r) (s_gone s) (s_handles s ++ [r]) (s_unspec s) (s_multi_removed s)
+      SSt (s_reg s ++ r) (s_gone s) (s_handles s ++ [r]) (s_unspec s) (s_multi_removed s) (s_subclients s)
   | OSub c pre ents =>
+      (* one subscription list per client, as in Subscribe (a fresh matchClient per RPC);
+         a client that subscribes twice is left unspecified *)
+      let un := if mem c (s_subclients s) then c :: s_unspec s else s_unspec s in
       match spec_entries c pre ents with
-      | Some rs => SSt (s_reg s ++ rs) (s_gone s) (s_handles s ++ [rs]) (s_unspec s) (s_multi_removed s)
-      | None => SSt (s_reg s) (s_gone s) (s_handles s ++ [[]]) (c :: s_unspec s) (s_multi_removed s)
+      | Some rs => SSt (s_reg s ++ rs) (s_gone s) (s_handles s ++ [rs]) un (s_multi_removed s) (c :: s_subclients s)
+      | None => SSt (s_reg s) (s_gone s) (s_handles s ++ [[]]) (c :: un) (s_multi_removed s) (c :: s_subclients s)
       end
   | ORem h =>
       match nth_error (s_handles s) h with
@@ -192,7 +196,7 @@ Definition sstep (s : sst) (o : op) : sst :=
                | r :: _ => if (2 <=? List.length (filter (fun x => negb (r_nil x)) rs))%nat
                            then r_client r :: s_multi_removed s else s_multi_removed s
                | [] => s_multi_removed s
-               end)
+               end) (s_subclients s)
       end
   | _ => s
   end.
@@ -249,7 +253,9 @@ Definition judge (s : sst) (once : bool) (npaths : nat) (ps : list path)
          if (2 <=? n)%nat then
            if Nat.eqb npaths 1 && (2 <=? nlive)%nat then [11%N] else [3%N]
          else []
-       else if Nat.eqb n 0 || Nat.eqb n nlive then [] else [3%N]
+       else if Nat.eqb n 0 || Nat.eqb n nlive then []
+            else if existsb r_nil live then [12%N]
+            else if mem c (s_multi_removed s) then [13%N] else [3%N]
    end) ++
   (* a leaf the snapshot would return is streamed *)
   (if mem c hits && Nat.eqb n 0 then
